@@ -628,11 +628,30 @@ func missingKey(c *an.Ctx, r *runnerRoles, cc *ssa.Function, rule string) {
 			c.Check(an.Dominates(render, run) && (fate.Kind == "propagated" || fate.Kind == "converted"), rule, an.Short(ex)+":render-before-run", render.Pos(),
 				"the command is rendered before the interpreter runs and a rendering error returns first", "rendering does not dominate the interpreter call, or its error does not return: "+fate.Detail)
 			// what is parsed is the rendered text
+			// (the program the interpreter runs ← Parser.Parse ← strings.NewReader ← the rendered text, looking through the helpers of pkg/executor)
 			parsedOK := false
-			for _, ci := range an.CallsIn(ex, "strings.NewReader") {
-				for _, src := range an.Sources(ci.Common().Args[0]) {
+			isRendered := func(v ssa.Value) bool {
+				for _, src := range p.DeepSources(v, 3, true) {
 					if e, ok := src.(*ssa.Extract); ok && e.Tuple == render.Value() && e.Index == 0 {
-						parsedOK = true
+						return true
+					}
+				}
+				return false
+			}
+			if len(run.Common().Args) >= 3 {
+				for _, prog := range p.DeepSources(run.Common().Args[2], 3, false) {
+					e, ok := prog.(*ssa.Extract)
+					if !ok || e.Index != 0 {
+						continue
+					}
+					parse, ok := e.Tuple.(*ssa.Call)
+					if !ok || an.ShortCallee(&parse.Call) != "(*mvdan.cc/sh/v3/syntax.Parser).Parse" {
+						continue
+					}
+					for _, rd := range p.DeepSources(parse.Call.Args[1], 3, true) {
+						if nr, ok := rd.(*ssa.Call); ok && an.ShortCallee(&nr.Call) == "strings.NewReader" && isRendered(nr.Call.Args[0]) {
+							parsedOK = true
+						}
 					}
 				}
 			}
